@@ -804,6 +804,12 @@ func (g *c13Gen) rejected(r *c13Req) [][2]int {
 // The importer is a trusted component; its effect on the outcome of the conversion step is computed
 // here and handed to the model as the `convErr` input of the step (copies of requests are made so
 // that a reloaded request can carry a different flag).
+//
+// Since the `fix:` commit that makes every Load's source importer start from the engine's package cache the two
+// copies can no longer differ: the oracle then never reports an importer-caused conversion error (the quirk was a
+// genuine defect, found by C05's load histories: a bundle-importing file loaded second failed to type-check).
+const c13ImporterSharesCache = true
+
 func c13ImporterOracle(reqs []*c13Req) []*c13Req {
 	dsl, fresh := 0, 0
 	bundleInst := map[string]int{}
@@ -857,7 +863,7 @@ func c13ImporterOracle(reqs []*c13Req) []*c13Req {
 				bundleInst[b.pkg] = inst
 				dsl = src
 			}
-			if inst != d {
+			if inst != d && !c13ImporterSharesCache {
 				r.importerConvErr = true
 			}
 		}
